@@ -96,6 +96,13 @@ class HashFileDB(ObjectDB):
                 except (ObjectFormatError, FileNotFoundError):
                     pass
 
+        failed: set[str] = set()
+
+        def _on_error(o: str, exc: BaseException) -> None:
+            assert on_error is not None
+            failed.add(o)
+            on_error(o, exc)
+
         transferred = super().add(
             paths,
             fs,
@@ -103,12 +110,22 @@ class HashFileDB(ObjectDB):
             hardlink=hardlink,
             callback=callback,
             check_exists=check_exists,
-            on_error=on_error,
+            on_error=_on_error if on_error is not None else None,
             **kwargs,
         )
 
         oid_cache_paths = {o: self.oid_to_path(o) for o in oids}
         for o, cache_path in oid_cache_paths.items():
+            if o in failed:
+                # NOTE: a failed transfer might have left something under the
+                # name of the object (e.g. a partially downloaded file), which
+                # must not get protected and trusted from now on.
+                try:
+                    self.check(o, check_hash=True)
+                except (ObjectFormatError, FileNotFoundError):
+                    pass
+                continue
+
             try:
                 if verify:
                     self.check(o, check_hash=True)
